@@ -37,21 +37,96 @@ def _split_top(text, tok):
     return None
 
 
+def _split_commas(text):
+    parts, depth, cur, instr, i = [], 0, '', None, 0
+    while i < len(text):
+        c = text[i]
+        if instr:
+            cur += c
+            if c == '\\' and i + 1 < len(text):
+                cur += text[i + 1]
+                i += 2
+                continue
+            if c == instr:
+                instr = None
+        elif c in '\'"':
+            instr = c
+            cur += c
+        elif c in '([{':
+            depth += 1
+            cur += c
+        elif c in ')]}':
+            depth -= 1
+            cur += c
+        elif c == ',' and depth == 0:
+            parts.append(cur)
+            cur = ''
+        else:
+            cur += c
+        i += 1
+    parts.append(cur)
+    return parts
+
+
+def desugar(text):
+    """`a ==> b` and `a <==> b` (lowest precedence, right associative, also inside parentheses and call arguments)
+    -> implies(a, b) / iff(a, b)"""
+    out, i, instr = '', 0, None
+    # first rewrite inside every bracketed group
+    while i < len(text):
+        c = text[i]
+        if instr:
+            out += c
+            if c == '\\' and i + 1 < len(text):
+                out += text[i + 1]
+                i += 2
+                continue
+            if c == instr:
+                instr = None
+            i += 1
+            continue
+        if c in '\'"':
+            instr = c
+            out += c
+            i += 1
+            continue
+        if c in '([{':
+            close = {'(': ')', '[': ']', '{': '}'}[c]
+            depth, k, ins = 1, i + 1, None
+            while k < len(text) and depth:
+                ch = text[k]
+                if ins:
+                    if ch == '\\':
+                        k += 1
+                    elif ch == ins:
+                        ins = None
+                elif ch in '\'"':
+                    ins = ch
+                elif ch in '([{':
+                    depth += 1
+                elif ch in ')]}':
+                    depth -= 1
+                k += 1
+            inner = text[i + 1:k - 1]
+            out += c + ','.join(desugar(p) for p in _split_commas(inner)) + close
+            i = k
+            continue
+        out += c
+        i += 1
+    sp = _split_top(out, '<==>')
+    if sp:
+        return 'iff(%s, %s)' % (desugar(sp[0]), desugar(sp[1]))
+    sp = _split_top(out, '==>')
+    if sp:
+        return 'implies(%s, %s)' % (sp[0].strip(), desugar(sp[1]))
+    return out
+
+
 def parse_spec(text):
     """python expression with `a ==> b` (right assoc., lowest precedence) and `a <==> b`"""
     if text in _cache:
         return _cache[text]
-    t = text.strip()
-    sp = _split_top(t, '<==>')
-    if sp:
-        node = ast.Call(func=ast.Name(id='iff', ctx=ast.Load()), args=[parse_spec(sp[0]), parse_spec(sp[1])], keywords=[])
-    else:
-        sp = _split_top(t, '==>')
-        if sp:
-            node = ast.Call(func=ast.Name(id='implies', ctx=ast.Load()), args=[parse_spec(sp[0]), parse_spec(sp[1])],
-                            keywords=[])
-        else:
-            node = ast.parse(t, mode='eval').body
+    node = ast.parse(desugar(text.strip()).strip(), mode='eval').body
     _cache[text] = node
     return node
 
